@@ -1,12 +1,15 @@
 PROP = {
     "modules": ["Discv5Model.Props.C20"],
     "lemma_modules": ["Discv5Model.Proofs.TalkLemmas"],
-    "engines": [{"name": "talk", "quick": 150, "thorough": 3000}],
+    "engines": [{"name": "talk", "quick": 150, "thorough": 3000}, {"name": "handler", "quick": 40, "thorough": 3000}],
     "rule": "talk engine: one real Service (scripted handler); up to ~14 TALKREQs delivered from 5 peers / several "
             "addresses (payloads up to the single-datagram limit of 1177 bytes; some objects dropped while a panic unwinds), the application responding / dropping / holding the request objects in random order, shutdown at "
             "a random point (the handler side of the channel goes away), then every object still held is responded to or "
             "dropped. Every HandlerIn::Response is attributed to its request (id + node address) and counted. "
-            "non-trivial = a request object responded to or dropped (before or after shutdown)",
+            "non-trivial = a request object responded to or dropped (before or after shutdown). handler engine (shared "
+            "with C01-C04): the responses the service hands to the transport travel through real Handler instances - TALK "
+            "requests and responses between 2-3 nodes under loss, duplication, re-keying and outstanding challenges; one "
+            "response handed over is at most one datagram, and what reaches the wire is compared with the handler model",
     "nontrivial": [("talk", "t.responded"), ("talk", "t.dropped"), ("talk", "t.respond-after-shutdown"),
                    ("talk", "t.drop-after-shutdown")],
     "trusted_base": ["Rust ownership: respond(self) consumes the object and is followed by Drop (life-cycle grammar TalkUse)"],
